@@ -1,12 +1,13 @@
 """C07 - recorded history survives a crash at any instant (DESIGN.md section 5, C07).
 
-proof:          coq/Props/C07.v (every crash state of open/write/update/chtimes answers as the run map before or after the
-                operation; close: find intact everywhere, atomic outside the twin window; retention: P1) - over all reachable
-                states x all operations x all crash prefixes/torn tails of the MODEL
+proof:          coq/Props/C07.v (every crash state of open/write/close/update/chtimes answers as the run map before or after the
+                operation; an update recorded after a kill inside a write/update is answered afterwards; retention, rename: P1) -
+                over all reachable states x all operations x all crash prefixes/torn tails of the MODEL
 fault enumeration against the implementation (process kill, not power loss):
                 harness/cmd/crash runs scripted scenarios on the real jsondb under
                 `strace -f -e inject=<syscall>:signal=SIGKILL:when=<k>` for every system call of the victim phase seen in an
-                uninterrupted traced run; additionally every byte prefix of the last append is synthesised.  A fresh process
+                uninterrupted traced run; additionally every byte prefix of the last append and of the temporary copy of Close is
+                synthesised, and real partial writes are produced under RLIMIT_FSIZE.  A fresh process
                 dumps the directory and asks the three queries.
 correspondence: the surviving directory must be one of the model's crash states of the operation in progress (Hist/CheckCrash.v)
 monitor:        P1-P4 evaluated in python on the real answers, from the scenario and the acknowledgements alone."""
@@ -215,12 +216,10 @@ def monitor(sc, n_acked, dump):
             reqs = [a.get("r") for a in got]
             dups = sorted(set(q for q in reqs if reqs.count(q) > 1))
             if dups:
-                # F7b (known): exactly the run being closed is listed twice - twin complete, original not yet unlinked.
-                # Anything else listed twice, or twice outside a Close, is a different failure.
+                # since eb925d1 (F7b) no run may be listed twice at any kill point; the former narrow class (exactly the run being
+                # closed, twice, inside Close) is kept as a label so that a regression is named, it is not a known finding any more
                 narrow = pt == "close" and cur is not None and dups == [cur.req] and reqs.count(cur.req) == 2
                 fails.append(("P4", "recent %d of %s lists a run twice: %s" % (n, d, reqs), "compaction-twin-listed-twice" if narrow else "other"))
-                if narrow:
-                    continue      # the slot taken by the duplicate is the known consequence; every other answer is still checked
             st = [next((r.stamp for r in rs if r.req == q), "") for q in reqs]
             if st != sorted(st, reverse=True):
                 fails.append(("P4", "recent %d of %s is not newest first: %s" % (n, d, reqs), "other"))
@@ -360,6 +359,11 @@ def acks(out):
     return [int(m.group(1)) for m in re.finditer(r"^ACK (\d+) ", out, re.M)]
 
 
+def acks_ok(out):
+    """the operations the store acknowledged WITHOUT an error"""
+    return [int(m.group(1)) for m in re.finditer(r"^ACK (\d+) ok", out, re.M)]
+
+
 def trace_points(log, datadir):
     """system calls of the store thread after the START marker: list of (syscall name, k, text) with k = count of that name in that
     thread so far.  The reference run is traced with -ff (one log per thread, no pid prefixes)."""
@@ -487,7 +491,7 @@ def byte_prefixes(ctx, tool, sc, idx, step=1):
             # second phase: a new process records an update, acknowledged - it must be visible afterwards (F7c)
             rc, out, err = sh([tool, "run", work, scf, "after"])
             rc, dout, err = sh([tool, "dump", work, scf])
-            obs[-1]["after_acks"] = acks(out)
+            obs[-1]["after_acks"] = acks_ok(out)
             obs[-1]["after_dump"] = json.loads(dout)
     return obs
 
@@ -581,6 +585,12 @@ def fsize_stream(ctx, tool, sc, idx, step=1):
             continue
         obs.append({"sc": sc, "kill": ["fsize", k], "n_acked": na, "dump": d, "loc": work,
                     "sysc": "write(2) cut by RLIMIT_FSIZE=%d" % k, "killed": rc != 0})
+        if sc.get("after"):
+            # a new process records an update on what the kill left (a REAL torn tail): acknowledged => visible afterwards (F7c, 32b069b)
+            rc, out, err = sh([tool, "run", work, scf, "after"])
+            rc, dout, err = sh([tool, "dump", work, scf])
+            obs[-1]["after_acks"] = acks_ok(out)
+            obs[-1]["after_dump"] = json.loads(dout)
     return obs
 
 
@@ -597,7 +607,8 @@ def fsize_scenarios(tier):
         # a whole run: real partial writes of Write (small and big) next to a completed run
         {"name": "fsize-run", "names": [A], "reqs": [R1[1], R2[1]],
          "prior": run_ops(A, *R1, [1]),
-         "victim": run_ops(A, *R2, [2, 3, 4], big=(3,)), "after": [], "fsize": 43, "fsize_top": 4900},
+         "victim": run_ops(A, *R2, [2, 3, 4], big=(3,)), "after": [op("update", d=A, req=R2[1], tag=9), op("update", d=A, req=R1[1], tag=8)],
+         "fsize": 43, "fsize_top": 4900},
     ]
     if tier == "thorough":
         for s in S:
@@ -747,7 +758,7 @@ def run(ctx, replay_cases=None):
     ctx.assumptions = [
         "process kill, not power loss; one recording process per DAG run (the agent), readers are fresh processes",
         "premises of C06 (safe names, distinct request ids / start seconds per DAG) for the theorems",
-        "theorems: open/write/update/chtimes atomic; close: find intact + atomic outside the twin window; retention: P1; rename is covered by the enumeration only",
+        "theorems: open/write/close/update/chtimes atomic (P1-P4); update after a torn write/update answered; retention and rename: P1 (_partial)",
     ]
     if ctx.tier == "thorough":
         ctx.coqchk()
